@@ -324,14 +324,17 @@ def enumerated(tier):
         items = _table()[0]
         _enum_cache[tier] = (shape_cases, items, salt, per)
     shape_cases, items, salt, per = _enum_cache[tier]
+    mods = [n_ for n_ in packs.module_names() if packs.classify(n_)[0] != "pack"]
 
     def fn(i):
         if i < len(shape_cases):
             return shape_cases[i]
-        m, tag = items[i - len(shape_cases)]
-        return {"k": "item", "m": m, "tag": tag, "salt": salt, "n": per}
+        if i < len(shape_cases) + len(items):
+            m, tag = items[i - len(shape_cases)]
+            return {"k": "item", "m": m, "tag": tag, "salt": salt, "n": per}
+        return {"k": "overlap", "m": mods[i - len(shape_cases) - len(items)]}
 
-    return len(shape_cases) + len(items), fn
+    return len(shape_cases) + len(items) + len(mods), fn
 
 
 def _prng_bytes(*parts, n):
@@ -382,9 +385,49 @@ def _nontrivial(it, field):
     return False
 
 
+_OVERLAP_PIN = None
+
+
+def _overlap_pin():
+    global _OVERLAP_PIN
+    if _OVERLAP_PIN is None:
+        import gzip, json
+        path = os.path.join(os.path.dirname(os.path.dirname(os.path.dirname(os.path.abspath(__file__)))), "pins", "overlaps-236b7b1.json.gz")
+        _OVERLAP_PIN = {k: {tuple(p_) for p_ in v} for k, v in json.load(gzip.open(path, "rt")).items()}
+    return _OVERLAP_PIN
+
+
+def _check_overlaps(res, m):
+    """two items of one table that own a common bit cannot both be written without changing the other; the audited tables contain
+    such pairs on purpose (a byte and the flags inside it) - those are pinned - any further pair is a table slip"""
+    pin = _overlap_pin().get(m)
+    if pin is None:
+        return 0        # a table module added after the audit: no pin to compare with
+    items = packs.ref_module(m)[1]
+    L = [(t, it.field_mask << (8 * (packs.BLOCK - it.pos - it.width))) for t, it in items.items() if it.pos + it.width <= packs.BLOCK]
+    n = 0
+    for i in range(len(L)):
+        for j in range(i + 1, len(L)):
+            if L[i][1] & L[j][1]:
+                n += 1
+                pair_ = tuple(sorted([L[i][0], L[j][0]]))
+                if pair_ not in pin:
+                    a, b = items[pair_[0]], items[pair_[1]]
+                    res.fail(f"C02|table-overlap|{m}|{pair_[0]}|{pair_[1]}",
+                             f"{m}: {pair_[0]} (byte {a.pos}, width {a.width}, mask {a.field_mask:#x}) and {pair_[1]} (byte {b.pos}, width {b.width}, "
+                             f"mask {b.field_mask:#x}) own common bits - writing either changes the other (not an alias pair of the audited tables)")
+    return n
+
+
 def run_case(case) -> Result:
     res = Result()
     k = case.get("k")
+    if k == "overlap":
+        n = _check_overlaps(res, case["m"])
+        res.nontrivial = n > 0
+        res.key = ("overlap", case["m"])
+        res.label("table-overlap-scan")
+        return res
     if k in ("shape", "shape2", "item"):
         m, tag = case["m"], case["tag"]
         try:
